@@ -229,6 +229,8 @@ class Fn:
             if f.id in ("ord","chr","enumerate","reversed","sum") and len(e.args)==1: return lib("py_"+f.id,A(0))
             if f.id=="zip" and len(e.args)==2: return lib("py_zip",A(0),A(1))
             if f.id=="divmod" and len(e.args)==2: return lib("py_divmod",A(0),A(1))
+            if f.id in ("bisect_right","bisect") and len(e.args)==2: return lib("py_bisect_right",A(0),A(1))
+            if f.id=="bisect_left" and len(e.args)==2: return lib("py_bisect_left",A(0),A(1))
             if f.id in ("min","max") and len(e.args)==2: return lib("py_"+f.id+"2",A(0),A(1))
             if f.id=="abs" and len(e.args)==1: return lib("py_abs",A(0))
             if f.id=="bool" and len(e.args)==1: return "(VBool (truthy %s))"%A(0)
